@@ -61,11 +61,14 @@ which=sys.argv[1:] or list(mutants)
 for name in which:
     wt='/var/tmp/c02-mut-'+name.split('-')[0]
     sh(f'git -C /repo worktree remove --force {wt}')
-    r=sh(f'git -C /repo worktree add --detach {wt} HEAD')
+    # C02_BASE=stage: start from the integrated branch (patches already in); default: /repo HEAD + repo-patches/C02
+    baseref=os.environ.get('C02_BASE','HEAD')
+    r=sh(f'git -C /repo worktree add --detach {wt} {baseref}')
     if r.returncode: print(name,'worktree failed',r.stdout); continue
     try:
-        r=sh('git -c user.name=selftest -c user.email=selftest@example.com am '+' '.join(sorted(glob.glob(ROOT+'/repo-patches/C02/*.patch'))), cwd=wt)
-        if r.returncode: print(name,'patches do not apply',r.stdout[-500:]); continue
+        if baseref=='HEAD':
+            r=sh('git -c user.name=selftest -c user.email=selftest@example.com am '+' '.join(sorted(glob.glob(ROOT+'/repo-patches/C02/*.patch'))), cwd=wt)
+            if r.returncode: print(name,'patches do not apply',r.stdout[-500:]); continue
         if base is None:
             r=sh('go test -vet=off -count=1 ./... 2>&1 | grep "^--- FAIL" | sed "s/ (.*//" | sort', cwd=wt)
             base=set(l.strip() for l in r.stdout.split('\n') if l.strip())
